@@ -65,6 +65,32 @@ Theorem gen_outputs_match : forall pt th l y,
     gen_sig_eig y l th = omul Rops y (dfac Rops th l).
 Proof. intros; repeat split; reflexivity. Qed.
 
+(* the pre-loop iterate: 0 in the pinned source; with a rate law possibly a non-negative estimate
+   c * dt * rate(f_trial) / phi0 (c in (0,1] from a pull-back loop).  Either way it is an instance
+   of the model's `start`, and it is non-negative -- the hypothesis of the theorems below. *)
+Theorem gen_start_match : forall c dt Rh rr sy, 0 <= c -> 0 <= dt -> (forall x, 0 <= rr x) ->
+    exists start, (forall p0 f, 0 <= start p0 f) /\
+      forall pt, gen_start_rate c (phi Rops (pairs pt) 0) (pOld pt) sy dt Rh rr = theta0 Rops Rh sy start pt /\
+                 gen_start_norate c (phi Rops (pairs pt) 0) (pOld pt) sy dt Rh rr
+                 = theta0 Rops Rh sy (fun _ _ => 0) pt.
+Proof.
+  intros c dt Rh rr sy Hc Hdt Hrr.
+  first
+    [ solve [ exists (fun _ _ => 0); split; [intros; lra|];
+              intro pt; unfold gen_start_rate, gen_start_norate, theta0;
+              destruct (active Rops Rh sy pt); split; reflexivity ]
+    | solve [ exists (fun p0 f => c * (dt * rr f / (if Rltb 0 p0 then p0 else 1))); split;
+              [ intros p0 f; apply Rmult_le_pos; [assumption|]; unfold Rdiv; apply Rmult_le_pos;
+                [ apply Rmult_le_pos; [assumption | apply Hrr]
+                | destruct (Rltb 0 p0) eqn:E;
+                  [ apply Rltb_true in E; left; apply Rinv_0_lt_compat; assumption
+                  | rewrite Rinv_1; lra ] ]
+              | intro pt; unfold gen_start_rate, gen_start_norate, theta0, active, ftrial;
+                change (oltb Rops) with Rltb; change (osub Rops) with Rminus; change (o0 Rops) with 0;
+                destruct (Rltb 0 (phi Rops (pairs pt) 0 - sy - Rh (pOld pt))); split;
+                first [reflexivity | ring] ] ] ].
+Qed.
+
 (* ------------------------------------------------------------------------------------------ *)
 (* B. von Mises / Hill: the flow direction P sigma is deviatoric                               *)
 (* ------------------------------------------------------------------------------------------ *)
@@ -100,19 +126,23 @@ Qed.
 (* ------------------------------------------------------------------------------------------ *)
 (* C. the property theorems (model level)                                                      *)
 (* ------------------------------------------------------------------------------------------ *)
-Theorem C19_theta_nonneg : forall Rh dRh rate dt sy tol maxIter pts,
-    Forall (fun q => 0 <= st_th q) (solve Rops Rh dRh rate dt sy tol maxIter pts).
+Theorem C19_theta_nonneg : forall Rh dRh rate dt sy tol start, (forall p0 f, 0 <= start p0 f) ->
+    forall maxIter pts, Forall (fun q => 0 <= st_th q) (solve Rops Rh dRh rate dt sy tol start maxIter pts).
 Proof. exact theta_nonneg. Qed.
 Print Assumptions C19_theta_nonneg.
 
-Theorem C19_dgamma_nonneg : forall Rh dRh rate dt sy tol maxIter pts,
+Example start_hypothesis_satisfiable : forall p0 f : R, 0 <= (fun _ _ => 0) p0 f.
+Proof. intros; simpl; lra. Qed.
+
+Theorem C19_dgamma_nonneg : forall Rh dRh rate dt sy tol start, (forall p0 f, 0 <= start p0 f) ->
+    forall maxIter pts,
     Forall (fun q => 0 <= dGam Rops (st_pt q) (st_th q) /\ pOld (st_pt q) <= p_new Rops (st_pt q) (st_th q))
-           (solve Rops Rh dRh rate dt sy tol maxIter pts).
+           (solve Rops Rh dRh rate dt sy tol start maxIter pts).
 Proof. exact dgamma_nonneg. Qed.
 Print Assumptions C19_dgamma_nonneg.
 
-Theorem C19_p_monotone : forall Rh dRh rate dt sy tol n steps p,
-    nondecreasing (p_trace Rh dRh rate dt sy tol n p steps).
+Theorem C19_p_monotone : forall Rh dRh rate dt sy tol start, (forall p0 f, 0 <= start p0 f) ->
+    forall n steps p, nondecreasing (p_trace Rh dRh rate dt sy tol start n p steps).
 Proof. exact p_monotone. Qed.
 Print Assumptions C19_p_monotone.
 
@@ -126,22 +156,24 @@ Theorem C19_dphi_is_derivative : forall ps th, lam_nonneg ps -> 0 <= th -> 0 < p
 Proof. exact dphi_is_derivative. Qed.
 Print Assumptions C19_dphi_is_derivative.
 
-Theorem C19_converged_on_surface : forall Rh dRh dt sy tol maxIter pts, 0 <= tol * sy ->
-    let st := solve Rops Rh dRh None dt sy tol maxIter pts in
+Theorem C19_converged_on_surface : forall Rh dRh dt sy tol start, (forall p0 f, 0 <= start p0 f) ->
+    forall maxIter pts, 0 <= tol * sy ->
+    let st := solve Rops Rh dRh None dt sy tol start maxIter pts in
     exit_small Rops Rh None dt sy tol st = true ->
     Forall (fun q => f_new Rh sy (st_pt q) (st_th q) <= tol * sy /\
                      (st_act q = true -> Rabs (f_new Rh sy (st_pt q) (st_th q)) < tol * sy)) st.
 Proof. exact converged_on_surface. Qed.
 Print Assumptions C19_converged_on_surface.
 
-Theorem C19_idle_points_return_trial : forall Rh dRh rate dt sy tol maxIter pts,
+Theorem C19_idle_points_return_trial : forall Rh dRh rate dt sy tol start, (forall p0 f, 0 <= start p0 f) ->
+    forall maxIter pts,
     Forall (fun q => st_act q = false ->
                      st_th q = 0 /\
                      sig_eig Rops (pairs (st_pt q)) (st_th q) = map snd (pairs (st_pt q)) /\
                      dGam Rops (st_pt q) (st_th q) = 0 /\
                      p_new Rops (st_pt q) (st_th q) = pOld (st_pt q) /\
                      f_new Rh sy (st_pt q) (st_th q) <= 0)
-           (solve Rops Rh dRh rate dt sy tol maxIter pts).
+           (solve Rops Rh dRh rate dt sy tol start maxIter pts).
 Proof. exact idle_points_return_trial. Qed.
 Print Assumptions C19_idle_points_return_trial.
 
